@@ -18,6 +18,7 @@ from .front import AnalysisError, Program
 from .interp import (
     AbsInt, ClassV, Coll, ExtMod, FuncV, GenV, IndexSet, Interp, Obj, Raised, TV,
 )
+from . import nxviews as NXV
 from .wire import (
     DESTS, ENGINE_CLS, LINK, LINKVSL, NET, NODE, ORIGINS, RAMPS, World, _Bound,
 )
@@ -199,6 +200,9 @@ class GWorld(World):
             return out
         if isinstance(v, GraphV):
             return list(v.node)
+        if isinstance(v, Obj) and v.kind == "view":
+            r = NXV.dunder(self, it, v, "__iter__", [], node)
+            return it.iterate(r, node, it.stack[-1] if it.stack else None)
         return World.iterate(self, it, v, node)
 
     def contains(self, it, container, item, node):
@@ -206,6 +210,8 @@ class GWorld(World):
             return item in container.g.node
         if isinstance(container, GraphV):
             return item in container.node
+        if isinstance(container, Obj) and container.kind == "view":
+            return bool(NXV.dunder(self, it, container, "__contains__", [item], node))
         return World.contains(self, it, container, item, node)
 
     def getitem(self, it, c, k, node):
@@ -223,6 +229,8 @@ class GWorld(World):
             if k in c.succ:
                 return c.succ[k]
             raise Raised("KeyError", node, it.stack[-1].fi, repr(k))
+        if isinstance(c, Obj) and c.kind == "view":
+            return NXV.dunder(self, it, c, "__getitem__", [k], node)
         return World.getitem(self, it, c, k, node)
 
     def getattr(self, it, o, attr, node):
@@ -273,6 +281,17 @@ class GWorld(World):
             raise it.err(node, f"NodeView.{attr} is not in the graph model")
         return World.getattr(self, it, o, attr, node)
 
+    def super_getattr(self, it, obj, attr, node):
+        """`super().attr` when no repository class further up the MRO defines it"""
+        if isinstance(obj, Obj) and obj.kind == "view":
+            return NXV.base_method(self, it, obj, attr, node)
+        return None
+
+    def length(self, it, v, node):
+        if isinstance(v, Obj) and v.kind == "view":
+            return NXV.dunder(self, it, v, "__len__", [], node)
+        return None
+
     def _listify(self, it, x, node):
         from .interp import IterV
 
@@ -281,6 +300,18 @@ class GWorld(World):
         return x
 
     def call_value(self, it, f, args, kwargs, node):
+        if isinstance(f, NXV._B):
+            try:
+                return f.fn(*args, **kwargs)
+            except TypeError as ex:
+                if "argument" in str(ex):
+                    raise Raised("TypeError", node, it.stack[-1].fi if it.stack else None, str(ex))
+                raise
+        if isinstance(f, Obj) and f.kind == "view":
+            m = self.prog.lookup_method(f.cls, "__call__")
+            if m is not None:
+                return it.call_function(FuncV(m, f, defcls=m.cls), list(args), dict(kwargs), node)
+            return NXV.base_method(self, it, f, "__call__", node).fn(*args, **kwargs)
         if isinstance(f, LinkViewV):
             if not args or args[0] is None:
                 return Coll(f.kind, None, len(self.iterate(it, f, node)), self.iterate(it, f, node), "All")
@@ -298,10 +329,15 @@ class GWorld(World):
         return World.call_value(self, it, f, args, kwargs, node)
 
     def construct(self, it, cv, args, kwargs, node):
-        if cv.fq == f"{VIEWS}:OutLinkViewWrapper":
-            return LinkViewV(args[0], "out")
-        if cv.fq == f"{VIEWS}:InLinkViewWrapper":
-            return LinkViewV(args[0], "in")
+        if cv.fq in self.prog.classes:
+            vk = NXV.view_kind(self.prog, cv.fq)
+            if vk is not None:
+                if len(args) != 1 or kwargs or not isinstance(args[0], GraphV):
+                    raise Raised("TypeError", node, it.stack[-1].fi if it.stack else None,
+                                 "an edge view is constructed from the graph")
+                if self.prog.lookup_method(cv.fq, "__init__") is not None:
+                    raise it.err(node, f"{cv.fq} defines its own __init__ (not in the view model)")
+                return NXV.make_view(self, cv.fq, vk, args[0])
         cname = cv.fq.split(":")[1]
         if cname.endswith("Error") or cname.endswith("Warning"):
             return Obj(cv.fq, f"<{cname}>", {"args": tuple(args)}, kind="exception")
